@@ -318,7 +318,7 @@ def family(tier, seed):
     items += f4r.generate(seed, 100 if tier == "quick" else 1000)
     # calls with every argument / parameter type pair, wrong argument counts, unknown callees: whatever of this the front end lets
     # through must still name an existing function with the right number of arguments
-    for it in f5.calls_and_returns() + f5.statements():
+    for it in f5.calls_and_returns() + f5.statements() + f5.stores():
         it.tags.add("may-reject")
         items.append(it)
     return items
